@@ -213,8 +213,9 @@ class ElfWriter:
             self.elf_header.e_phnum * self.elf_header.e_phentsize, io.SEEK_CUR
         )
 
-        # Write sections contained in images:
-        for image in self.obj.images:
+        # Write sections contained in images. Loadable segments must
+        # appear in ascending order of their virtual address:
+        for image in sorted(self.obj.images, key=lambda i: i.address):
             self.align_to(self.page_size)
             file_offset = self.f.tell()
 
